@@ -1,6 +1,6 @@
 // UNIT EVC — how an event-log message is built from a parsed record (C10: the creation time the window and the ordering use is the
 // record's own timestamp; C13: the datetime range recorded for highlighting lies inside the text): Evtx::from_evtxrs and
-// Evtx::get_dt_beg_end (src/data/evtx.rs).
+// Evtx::get_dt_beg_end (src/data/evtx.rs); EVR-SETTINGS: the parser settings built in EvtxReader::new withhold no chunk of records.
 // Assumed by contract (stand-ins, R9): DateTime<Utc> -> DateTime<FixedOffset> `.into()` keeps the instant; `String + &str`
 // concatenates; `str::find` returns the first occurrence.  The evtx crate's record (EvtxRS) by the three fields used.
 #![allow(unused_imports, non_camel_case_types, dead_code, unused_variables, unused_parens, unused_mut, unused_assignments, non_snake_case)]
@@ -78,6 +78,35 @@ impl Evtx {
         r.dt_beg_end is Some ==> r.dt_beg_end.unwrap().0 <= r.dt_beg_end.unwrap().1 && r.dt_beg_end.unwrap().1 as int <= sbs(&r.data).len(),
 //@mutate "let id: RecordId = record.event_record_id;" "let id: RecordId = 0;"
 //@end
+}
+
+// EVR-SETTINGS — "each record is printed exactly once" starts with the parser being asked for every record: the evtx crate refuses
+// a whole 64 KiB chunk (one error, none of its records) when told to validate checksums and the stored checksum is stale, which is
+// common in logs copied from a live system.  The one statement of EvtxReader::new (src/readers/evtxreader.rs) that builds the
+// parser settings, with the crate's builder modelled by the one switch that can withhold records.
+// ---- assumed (evtx crate): ParserSettings::default() does not validate checksums; validate_checksums(b) sets the switch; the other
+// builder calls leave it alone
+pub struct ParserSettings { pub ghost validate: bool }
+impl ParserSettings {
+    #[verifier::external_body]
+    pub fn default() -> (r: ParserSettings) ensures !r.validate { unimplemented!() }
+    #[verifier::external_body]
+    pub fn new() -> (r: ParserSettings) ensures !r.validate { unimplemented!() }
+    #[verifier::external_body]
+    pub fn num_threads(self, num_threads: usize) -> (r: ParserSettings) ensures r.validate == self.validate { unimplemented!() }
+    #[verifier::external_body]
+    pub fn validate_checksums(self, validate_checksums: bool) -> (r: ParserSettings) ensures r.validate == validate_checksums { unimplemented!() }
+    #[verifier::external_body]
+    pub fn separate_json_attributes(self, separate: bool) -> (r: ParserSettings) ensures r.validate == self.validate { unimplemented!() }
+    #[verifier::external_body]
+    pub fn indent(self, pretty: bool) -> (r: ParserSettings) ensures r.validate == self.validate { unimplemented!() }
+}
+pub fn evr_settings() -> (r: ParserSettings)
+    ensures !r.validate   // C10: no chunk of records is withheld for its checksum
+{
+//@cut slice path=src/readers/evtxreader.rs impl=EvtxReader fn=new anchor="let settings = ParserSettings::" take=stmt label=EVR-SETTINGS
+//@end
+    settings
 }
 
 /// vacuity guard: must NOT verify
